@@ -170,7 +170,7 @@ fn new_cid_step<const N: usize>(off: u64, jump_limited: bool) {
 #[kani::stub(alloc::fmt::format, stub_fmt)]
 #[kani::stub(crate::token::ResetToken::random_gen, stub_token)]
 #[kani::stub(verif_model::VecDeque::resize, stub_resize)]
-fn c04_remotecid_new_cid_work_bounded() {
+fn c04_p_remotecid_new_cid_work_bounded() {
     new_cid_step::<1>(0, false);
 }
 
